@@ -6,10 +6,10 @@ import common, pkglib
 r = json.load(open(sys.argv[1])); chk = sys.argv[2] if len(sys.argv) > 2 else "chk04"
 drv = pkglib.Driver(str(common.WORK / "dbg"))
 recs = pkglib.run_concrete(drv, r["ops"])
-hdr = pkglib.PKG_HEADER + "Require Import PkgChk.\n"
+hdr = pkglib.PKG_HEADER + "Require Import PkgChk.\n" + pkglib.fx_header()[0]
 ex = []
 for i, rec in enumerate(recs):
-    ex.append("%s (%s)" % (chk, pkglib.step_case(rec)))
+    ex.append("%s FX (%s)" % (chk, pkglib.step_case(rec)))
 last = pkglib.step_case(recs[-1])
 ex.append("let '(fs,d,o,fs',d',r) := %s in let '((fsm,dm),rm) := cstep FIXED (fs,d) o in (entries_of fs' d', entries_of fsm dm, r, rm, cPkgOKb fs' d', cPkgOKb fsm dm, view_eqb fs' d' fsm dm)" % last)
 ex.append("let '(fs,d,o,fs',d',r) := %s in let '((fsm,dm),rm) := cstep FIXED (fs,d) o in (d', dm)" % last)
